@@ -175,8 +175,10 @@ var deployingLifecycleStage = step.LifecycleStage{
 	FinishedName: "deployed",
 	InputFields:  map[string]struct{}{string(StageIDDeploy): {}},
 	NextStages: map[string]dgraph.DependencyType{
-		string(StageIDStarting):     dgraph.AndDependency,
-		string(StageIDDeployFailed): dgraph.CompletionAndDependency,
+		string(StageIDStarting): dgraph.AndDependency,
+		// A deployment only fails after it was attempted, so when the deploy stage can never happen (its input can
+		// never be provided) the deploy_failed stage cannot happen either.
+		string(StageIDDeployFailed): dgraph.AndDependency,
 		string(StageIDClosed):       dgraph.CompletionAndDependency,
 	},
 	Fatal: false,
@@ -200,8 +202,9 @@ var enablingLifecycleStage = step.LifecycleStage{
 	NextStages: map[string]dgraph.DependencyType{
 		string(StageIDStarting): dgraph.AndDependency,
 		string(StageIDDisabled): dgraph.AndDependency,
-		string(StageIDCrashed):  dgraph.CompletionAndDependency,
-		string(StageIDClosed):   dgraph.CompletionAndDependency,
+		// The step can only crash once it is known to be enabled.
+		string(StageIDCrashed): dgraph.AndDependency,
+		string(StageIDClosed):  dgraph.CompletionAndDependency,
 	},
 }
 
